@@ -25,7 +25,32 @@ func (p *Prog) upChan(s *Sym, depth int) *Sym {
 	if _, isChan := par.Type().Underlying().(*types.Chan); !isChan {
 		return s
 	}
-	return p.upParam(s, depth)
+	if up := p.upParam(s, depth); up.String() != s.String() {
+		return up
+	}
+	// a channel handed to a goroutine with its go statement (go smpl.handler(ctx, smpl.output, smpl.feedback))
+	// is that channel for the whole life of the goroutine
+	fn := par.Parent()
+	if obj, _ := fn.Object().(*types.Func); obj != nil && obj.Exported() {
+		return s
+	}
+	idx := paramIndex(fn, par)
+	var found *Sym
+	for _, cs := range p.CallSites(fn) {
+		args := cs.Common().Args
+		if idx < 0 || idx >= len(args) {
+			return s
+		}
+		a := p.upChan(p.Sym(args[idx]), depth+1)
+		if found != nil && found.String() != a.String() {
+			return s
+		}
+		found = a
+	}
+	if found == nil {
+		return s
+	}
+	return found
 }
 
 // upParam resolves a parameter of a private function through its call sites when they all pass
